@@ -36,7 +36,7 @@ _KEEP = []     # keeps fact terms alive so id() stays unique
 
 class State:
     __slots__ = ("env", "heap", "pc", "frontier", "lheap", "ghost", "events", "A0", "old", "version",
-                 "tag", "trace", "exc_stack", "facts")
+                 "tag", "trace", "exc_stack", "facts", "qfacts")
 
     def __init__(self):
         self.env = {}
@@ -53,6 +53,7 @@ class State:
         self.trace = []
         self.exc_stack = []
         self.facts = set()
+        self.qfacts = set()
 
     def fork(self):
         s = State.__new__(State)
@@ -70,6 +71,7 @@ class State:
         s.trace = list(self.trace)
         s.exc_stack = list(self.exc_stack)
         s.facts = set(self.facts)
+        s.qfacts = set(self.qfacts)
         return s
 
     # heap ---------------------------------------------------------------
@@ -96,6 +98,8 @@ class State:
         for c in cs:
             self.pc.append(c)
             self.facts.add(id(c))
+            if z3.is_quantifier(c):
+                self.qfacts.add(id(c))
             _KEEP.append(c)
 
     def snapshot(self):
